@@ -828,7 +828,8 @@ class QueryBuilder(Selectable, Term):  # type:ignore[misc]
 
         conflict_query = " ON CONFLICT"
         if self._on_conflict_fields:
-            on_conflict_ctx = ctx.copy(with_alias=True)
+            # conflict targets are column names of the insert table: never qualified
+            on_conflict_ctx = ctx.copy(with_alias=True, with_namespace=False)
             fields = [
                 f.get_sql(on_conflict_ctx)  # type:ignore[union-attr]
                 for f in self._on_conflict_fields
